@@ -67,3 +67,6 @@ RC.append(("np.linalg.det of a singular matrix (det is a polynomial, its gradien
 
 RC.append(("np.sum(x, axis=k, dtype=int): the result is integer-valued (piecewise constant in x) but the rules of sum ignore dtype and let the derivative flow as for a float sum",
            [("C14", "-", "rev", "wrong-derivative", "h:~.*dtype=int.*"), ("C14", "-", "fwd", "wrong-derivative", "h:~.*dtype=int.*")]))
+
+RC.append(("np.split with unsorted (overlapping) indices, e.g. np.split(x, [3, 1]): the VJP concatenates the pieces' cotangents and returns a gradient that is longer than the argument",
+           [("C15", "concatenate", "rev", "silently-wrong-with-option", "case:split with unsorted indices")]))
